@@ -414,6 +414,17 @@ def _run(ctx, case, net):
             ctx.nontrivial((cls, ms["level"], "frag" if fragged else ("0" if not ms["len"] else "1f"),
                             tuple(sorted(level_of[a] for a in case["relay"])), bool(case["mc_off"]),
                             case["profiles"][str(src)]["spi_overhead"]))
+    # ---- nothing reaches an application that nobody sent (all traffic here is the multicasts
+    # above; the unicasts of the concurrent scenarios go to absent nodes)
+    ctx.clause("only_sent_messages_delivered")
+    known_payloads = set(bytes(pl) for pl in sent)
+    for nn in net.nodes:
+        for e in nn.applog:
+            if e["msg"] not in known_payloads:
+                ctx.violation("unsent-message-delivered", "node %s's application read a %d-byte type-%d message from %s "
+                              "(to %s) that nobody sent" % (oct(nn.obj.node_address), len(e["msg"]), e["type"],
+                                                           oct(e["from"]), oct(e["to"])), case, {"msg": e["msg"].hex()})
+                return
     ctx.count("multicasts_judged", len(net.results))
     ctx.distinct("air_order_digests", net.air_digest())
     for st in net.radio_states():
